@@ -23,7 +23,7 @@ DB, SC = "DB1", "S1"
 STATUS_OK = [["Statement executed successfully."]]
 
 SPEC = {
-    "runs": {"quick": 700, "thorough": 50000},
+    "runs": {"quick": 700, "thorough": 60000},
     "wall": {"quick": 600, "thorough": 7200},
     "chunk": 10,
     "level": "exploration",
